@@ -122,3 +122,54 @@ fn explicit_reregister_wins_over_deferred_disable() {
         assert_eq!(n, expect, "mode {}: explicit Reregister must win over the deferred disable; a Continue return lets the deferred disable take effect", mode);
     }
 }
+
+/// An explicit non-Continue return takes precedence over the deferred request: observed on the asking source itself.
+/// `explicit`: 2 = Remove, 4 = Disable.
+fn explicit_action_wins(explicit: u8, deferred_update: bool) {
+    struct Src2 { ping: PingSource, explicit: u8 }
+    impl EventSource for Src2 {
+        type Event = ();
+        type Metadata = ();
+        type Ret = ();
+        type Error = Box<dyn std::error::Error + Sync + Send>;
+        fn process_events<F>(&mut self, r: Readiness, t: Token, mut cb: F) -> Result<PostAction, Self::Error> where F: FnMut((), &mut ()) {
+            self.ping.process_events(r, t, |_, _| cb((), &mut ()))?;
+            Ok(if self.explicit == 2 { PostAction::Remove } else { PostAction::Disable })
+        }
+        fn register(&mut self, p: &mut Poll, f: &mut TokenFactory) -> calloop::Result<()> { self.ping.register(p, f) }
+        fn reregister(&mut self, p: &mut Poll, f: &mut TokenFactory) -> calloop::Result<()> { self.ping.reregister(p, f) }
+        fn unregister(&mut self, p: &mut Poll) -> calloop::Result<()> { self.ping.unregister(p) }
+    }
+    let mut el: EventLoop<u32> = EventLoop::try_new().unwrap();
+    let h = el.handle();
+    let (ping, src) = make_ping().unwrap();
+    let tok: Rc<Cell<Option<RegistrationToken>>> = Rc::new(Cell::new(None));
+    let (h2, tok2) = (h.clone(), tok.clone());
+    let t = h.insert_source(Src2 { ping: src, explicit }, move |_, _, n: &mut u32| {
+        *n += 1;
+        let me = tok2.get().unwrap();
+        if deferred_update { h2.update(&me).unwrap() } else { h2.disable(&me).unwrap() }
+    }).unwrap();
+    tok.set(Some(t));
+    let mut n = 0u32;
+    ping.ping();
+    el.dispatch(Duration::from_millis(50), &mut n).unwrap();
+    assert_eq!(n, 1);
+    // whatever was deferred, the explicit action was applied: the source no longer fires ...
+    ping.ping();
+    el.dispatch(Duration::from_millis(50), &mut n).unwrap();
+    assert_eq!(n, 1, "the source fired again although it returned {}", if explicit == 2 { "Remove" } else { "Disable" });
+    if explicit == 2 {
+        // ... and is gone: its token is dead
+        assert!(h.enable(&t).is_err(), "a source that returned Remove is still inserted");
+    } else {
+        // ... and is merely disabled: enable() brings it back, with the ping that accumulated meanwhile
+        h.enable(&t).expect("a source that returned Disable can be enabled again");
+        el.dispatch(Duration::from_millis(50), &mut n).unwrap();
+        assert_eq!(n, 2);
+    }
+}
+#[test] fn explicit_remove_wins_over_deferred_disable() { explicit_action_wins(2, false) }
+#[test] fn explicit_remove_wins_over_deferred_update() { explicit_action_wins(2, true) }
+#[test] fn explicit_disable_wins_over_deferred_update() { explicit_action_wins(4, true) }
+#[test] fn explicit_disable_with_deferred_disable() { explicit_action_wins(4, false) }
